@@ -214,6 +214,9 @@ static void specials() {
     // field states under which an all-ones / all-zero buffer passes the address and port gates, so that the inner matchers
     // and the length arithmetic behind the gates are reached with every truncation
     OBJS["EthernetII#ones_ip_tcp"] = (EthernetII("ff:ff:ff:ff:ff:ff", "ff:ff:ff:ff:ff:ff") / IP("255.255.255.255", "255.255.255.255") / TCP(65535, 65535) / RawPDU("p")).clone();
+    // an all-ones TCP header announces a 60-byte header: the layer behind TCP is asked with whatever TCP computes for lengths 20..59
+    { DNS d; d.id(0xffff); OBJS["EthernetII#ones_ip_tcp_dns"] = (EthernetII("ff:ff:ff:ff:ff:ff", "ff:ff:ff:ff:ff:ff") / IP("255.255.255.255", "255.255.255.255") / TCP(65535, 65535) / d).clone();
+      OBJS["TCP#ones_dns"] = (TCP(65535, 65535) / d).clone(); OBJS["TCP#ones_bootp"] = (TCP(65535, 65535) / BootP()).clone(); }
     OBJS["EthernetII#ones_ip_udp_dns"] = (EthernetII("ff:ff:ff:ff:ff:ff", "ff:ff:ff:ff:ff:ff") / IP("255.255.255.255", "255.255.255.255") / UDP(65535, 65535) / DNS()).clone();
     { DNS d; d.id(0xffff); OBJS["EthernetII#ones_vlan_ip6_udp_dns"] = (EthernetII("ff:ff:ff:ff:ff:ff", "ff:ff:ff:ff:ff:ff") / Dot1Q(4095) / IPv6(IPv6Address("ff02::1"), IPv6Address(ff16)) / UDP(65535, 65535) / d).clone(); }
     OBJS["EthernetII#zeros_ip_tcp"] = (EthernetII("00:00:00:00:00:00", "00:00:00:00:00:00") / IP("0.0.0.0", "0.0.0.0") / TCP() / RawPDU("p")).clone();
